@@ -464,4 +464,8 @@ def run(ctx: Ctx, repo: Repo, tier: str) -> None:
     ctx.attempt(rule_handlers, ctx, repo)
     ctx.attempt(rule_pipeline, ctx, repo)
     ctx.attempt(rule_import_shape, ctx, repo)
+    # the name a generic is imported and rendered by: compat.qualname_of_generic / name_of_generic answer as the rendering models
+    # assume, also for a user-defined generic class nested in another class (decided by interpretation, CPython's attribute facts)
+    from .compat_rules import compat_predicates
+    ctx.attempt(compat_predicates, ctx, repo, "R-C11.5", ("qualname_of_generic", "name_of_generic"))
     ctx.settle()
